@@ -15,7 +15,11 @@ Inductive c14op :=
 (* observation after a step: query answer, number of batch files, WAL lines (None = not compared) *)
 Inductive c14obs := C14Obs (q : list tuple) (nbatches : N) (wal_lines : option N).
 
-Inductive c14case := C14Case (cfg : pcfg) (steps : list (c14op * c14obs)).
+Inductive c14obs2 := C14Obs2 (q1 q2 : list tuple) (nbatches : N) (wal_lines : option N).
+
+Inductive c14case :=
+| C14Case (cfg : pcfg) (steps : list (c14op * c14obs))
+| C14Case2 (cfg : pcfg) (steps : list (bool * c14op * c14obs2)).
 
 Definition pop_of (o : c14op) : pop :=
   match o with
@@ -68,9 +72,39 @@ Fixpoint c14_prop (before : list tuple) (spec : list tuple) (steps : list (c14op
       maint_ok o && (if is_maint o then set_eqb q before else true) && set_eqb q spec' && c14_prop q spec' r
   end.
 
+(* ---- two relations of one knowledge graph (`r` and `r_weight`: one shard name is a prefix of the
+   other).  With the WAL-size trigger off the shards only share the WAL file and the batch directory,
+   so each relation is the single-shard model; writes go to one relation, maintenance to both.
+   Observation: both relations' contents, total batch files, total WAL lines. *)
+Fixpoint c14_corr2 (c : pcfg) (s1 s2 : fst_) (steps : list (bool * c14op * c14obs2)) : bool :=
+  match steps with
+  | [] => true
+  | (second, o, C14Obs2 q1 q2 nb wl) :: r =>
+      let w := negb (is_maint o) in
+      let '(s1', rep1) := if w && second then (s1, ROk) else pstep c s1 (pop_of o) in
+      let '(s2', rep2) := if w && negb second then (s2, ROk) else pstep c s2 (pop_of o) in
+      (if w then (if second then rep_ok o rep2 else rep_ok o rep1) else rep_ok o rep1 && rep_ok o rep2) &&
+      set_eqb q1 (f_live s1') && nodup_b q1 && set_eqb q2 (f_live s2') && nodup_b q2 &&
+      N.eqb nb (N.of_nat (length (batches (f_p s1')) + length (batches (f_p s2')))) &&
+      (match wl with Some n => N.eqb n (N.of_nat (length (wal (f_p s1')) + length (wal (f_p s2')))) | None => true end) &&
+      c14_corr2 c s1' s2' r
+  end.
+
+Fixpoint c14_prop2 (b1 b2 sp1 sp2 : list tuple) (steps : list (bool * c14op * c14obs2)) : bool :=
+  match steps with
+  | [] => true
+  | (second, o, C14Obs2 q1 q2 _ _) :: r =>
+      let sp1' := if second then sp1 else set_apply sp1 o in
+      let sp2' := if second then set_apply sp2 o else sp2 in
+      maint_ok o &&
+      (if is_maint o then set_eqb q1 b1 && set_eqb q2 b2 else true) &&
+      set_eqb q1 sp1' && set_eqb q2 sp2' && c14_prop2 q1 q2 sp1' sp2' r
+  end.
+
 Definition c14_one (c : c14case) : N * (bool * bool) :=
   match c with
   | C14Case cfg steps => (0, (c14_corr cfg f0 steps, c14_prop [] [] steps))
+  | C14Case2 cfg steps => (0, (c14_corr2 cfg f0 f0 steps, c14_prop2 [] [] [] [] steps))
   end.
 
 Definition c14_check := run_checker c14_one.
